@@ -437,7 +437,17 @@ func RunC03Random(k *fw.Case) {
 	for j := 1; j <= n; j++ {
 		id := int64(j) * 1000
 		ru := &hostRule{meta: gen.RuleMeta{Name: fmt.Sprintf("h%d", j)}}
-		switch r.Intn(9) {
+		switch r.Intn(10) {
+		case 9: // an element struct in a local (fields, value-receiver method), a pointer-receiver method through a pointer field
+			ru.key, ru.desc = "call/struct-shapes", "struct element held in a local; pointer-receiver method through a pointer field"
+			kx := int64(r.Intn(2))
+			ru.body = []gen.Stmt{
+				&gen.Assign{Target: "sx", Op: "=", E: &gen.Elem{Cont: "H.IS", KeyInt: &kx}},
+				tvS(id+1, &gen.Ref{Name: "sx.X"}), tvS(id+2, &gen.Ref{Name: "sx.S"}),
+				tvS(id+3, &gen.CallE{Name: "sx.Sum", Args: []gen.Expr{il(int64(r.Intn(9))), smallNum(r, g, tU16)}}),
+				tvS(id+4, &gen.CallE{Name: "H.Pn.Bump", Args: []gen.Expr{smallNum(r, g, tI8)}}),
+				tvS(id+5, &gen.Ref{Name: "H.Pn.X"}),
+			}
 		case 0: // typed reads of injected data, incl. missing map keys
 			ru.key, ru.desc = "read", "typed reads of injected values"
 			for q := 0; q < 3; q++ {
